@@ -1,2 +1,3 @@
 import QlibcModel.Props.C12
-#print axioms Qlibc.Props.C12.placeholder
+#print axioms Qlibc.Props.C12.stored_bytes_exact
+#print axioms Qlibc.Props.C12.step_depends_on_values_only
